@@ -8,7 +8,7 @@ From RC Require Import Hdr Machine RunInd.
 From RC Require BufBase BufPass BufStep Buf.
 From RC Require Pass PassCount PassRoots PassMain.
 From RC Require Import Inv InvP SafeHelpers SafePrims SafeCalls SafeGlue SafeDrop SafeCmd SafeCyclic SafeMain.
-From RC Require Import SafeColl SafeCollFr SafeCollHdr.
+From RC Require Import SafeColl SafeCollFr SafeCollHdr SafeCollTop.
 Import ListNotations RecordSetNotations.
 Local Open Scope N_scope.
 
@@ -127,7 +127,7 @@ Section AfterPass.
   Lemma obj_sim_hsim x y : Pass.obj_sim x y -> is_dropped (o_hdr y) = is_dropped (o_hdr x) -> hsim x y.
   Proof.
     intros (t & k & ->) Hd. exists (set_mark k (set_tc t (o_hdr x))). split; [destruct x; reflexivity|].
-    cbn in Hd. auto.
+    cbn in Hd. cbn. auto.
   Qed.
 
   Lemma NoBad_app_log m m' l :
@@ -221,6 +221,97 @@ Section AfterPass.
     Proof.
       intros Hx Hx' Hi. destruct (decide (o_hdr x' = o_hdr x)) as [|Hne]; [assumption|].
       destruct (ap_changed o x x' Hx Hx' Hne) as (y & Hy & _ & _ & Hi' & _). congruence.
+    Qed.
+
+    Lemma ap_sinv :
+      (forall t, t ∈ pc m2 -> t ∈ pc m /\ h_mark (hdr_of m2 t) = PC) -> SInv K b E [] m2.
+    Proof.
+      intros Hpc. destruct ap_rest as (R1 & R2 & R3 & R4 & R5 & R6 & R7 & R8 & R9 & R10 & R11 & R12).
+      eapply (SInv_hsim K b E [] m m2 HI ap_heaps); auto.
+      - rewrite R10. auto.
+      - exact ap_dead_hdr.
+      - intros t Ht. destruct (Hpc t Ht) as [Hin Hmk]. split; [|exact Hmk].
+        destruct (sv_pc _ _ _ _ _ HI t Hin) as (x & Hx & Hbx & Hvx & Hix & _). exists x. auto.
+    Qed.
+
+    Lemma ap_frm : FrM K E m m2.
+    Proof.
+      destruct ap_rest as (R1 & R2 & R3 & R4 & R5 & R6 & R7 & R8 & R9 & R10 & R11 & R12).
+      apply FrM_same; [|exact R7|exact R4].
+      apply (norm_heaps m m2 ap_heaps). intros o x x' Hx Hx' Hb.
+      destruct (decide (o_hdr x' = o_hdr x)) as [|Hne]; [assumption|].
+      destruct (ap_changed o x x' Hx Hx' Hne) as (y & Hy & Hby & _). congruence.
+    Qed.
+
+    Lemma ap_buf :
+      match pr with PDone L => BufBase.Ibuf K L m2 | PPanicked => BufBase.Ibuf K [] m2 | PFuel => True end.
+    Proof.
+      destruct ap_nobad as [Hnb2 Hnf2].
+      assert (HG0 : BufBase.GI K [] [] m0).
+      { right. destruct HB as (I & _ & _). eapply BufStep.Imk_same; [..|exact I]; reflexivity. }
+      pose proof (BufPass.trace_pass_buf K P m0 HG0) as HT.
+      pose proof (BufPass.trace_pass_pcz K P m0) as HZ. rewrite Hr in HT, HZ. cbn [fst snd] in HT, HZ.
+      assert (Hcore : BufBase.core_eq m1 m2) by (repeat split).
+      assert (Hc2 : st_collecting m2 = true).
+      { destruct ap_rest as (_ & _ & _ & _ & _ & _ & _ & _ & R9 & _). rewrite R9. exact Hcoll. }
+      destruct pr as [L| |]; [| |exact I].
+      - apply (G_Ibuf K L m2); [|exact Hnb2|exact Hnf2].
+        apply BufStep.G_of_GI.
+        + eapply BufBase.GI_core; [exact Hcore | exact HT].
+        + intros _. exact Hc2.
+        + destruct (BufPass.tcz_of_pcz K _ _ _ HT (HZ ltac:(discriminate))) as [D|Z].
+          * left. eapply BufBase.dirty_core; [exact Hcore | exact D].
+          * right. eapply BufBase.tcz_heap; [|exact Z]. reflexivity.
+      - apply (G_Ibuf K [] m2); [|exact Hnb2|exact Hnf2].
+        apply BufStep.G_of_GI.
+        + eapply BufBase.GI_core; [exact Hcore | exact HT].
+        + intros Hne. contradiction.
+        + destruct (BufPass.tcz_of_pcz K _ _ _ HT (HZ ltac:(discriminate))) as [D|Z].
+          * left. eapply BufBase.dirty_core; [exact Hcore | exact D].
+          * right. eapply BufBase.tcz_heap; [|exact Z]. reflexivity.
+    Qed.
+
+    Lemma ap_panicked : pr = PPanicked -> forall t, t ∈ pc m2 -> t ∈ pc m /\ h_mark (hdr_of m2 t) = PC.
+    Proof.
+      intros Hp t Ht. subst pr.
+      destruct (PassMain.pass_panicked K P m0 _ m1 ap_pre Hr) as (_ & Hsuf & _ & Hmk & _).
+      assert (Hin : t ∈ pc m).
+      { destruct Hsuf as [k Hk]. change (pc m0) with (pc m) in Hk. rewrite Hk. apply elem_of_app. right. exact Ht. }
+      split; [exact Hin|].
+      destruct (sv_pc _ _ _ _ _ HI t Hin) as (x & Hx & Hbx & _).
+      destruct (ap_get t x Hx) as (x' & Hx' & Hs). destruct (hsim_proj _ _ Hs) as (Pb & _).
+      change (hdr_of m2 t) with (hdr_of m1 t). apply Hmk; [|exact Ht].
+      exists x'. split; [exact Hx' | congruence].
+    Qed.
+
+    Lemma ap_done L : pr = PDone L ->
+      NoDup L /\ pc m2 = [] /\ (forall g, g ∈ L -> Member m2 g) /\ ClosedL L E m2.
+    Proof.
+      intros Hp. subst pr.
+      destruct (PassMain.pass_done_marks K P m0 _ m1 L ap_pre Hr) as (Hnd & Hpc & _ & Hmk & HL).
+      pose proof (PassMain.pass_closed K P m0 _ m1 L ap_pre Hr) as Hcl.
+      destruct ap_rest as (R1 & R2 & R3 & R4 & R5 & R6 & R7 & R8 & R9 & R10 & R11 & R12).
+      split; [exact Hnd|]. split; [exact Hpc|]. split; [|split].
+      - intros g Hg. destruct (HL g Hg) as ((x1 & Hx1 & Hb1) & _ & _).
+        destruct (hs_r _ _ _ _ ap_heaps Hx1) as (x & Hx & Hs).
+        destruct (hsim_proj _ _ Hs) as (Pb & Pv & _).
+        assert (Hil : h_mark (o_hdr x1) = IL).
+        { destruct (Hmk g) as [Hiff _]; [exists x1; auto|]. rewrite <- (hdr_of_get m1 g x1 Hx1). apply Hiff, Hg. }
+        assert (Hne : o_hdr x1 <> o_hdr x).
+        { intros He. assert (Hm : marked x = false) by (eapply (Ibuf_nomark_alloc K [] m); eauto; [congruence | apply not_elem_of_nil]).
+          unfold marked, is_in_list_or_queue in Hm. rewrite <- He, Hil in Hm. discriminate. }
+        destruct (ap_changed g x x1 Hx Hx1 Hne) as (y & Hy & Hby & Hvy & Hiy & _). assert (y = x) by congruence. subst y.
+        exists x1. split; [exact Hx1|]. split; [congruence|]. split; [congruence|].
+        split; [rewrite (inD_eq m m2 g R7); exact Hiy | exact Hil].
+      - intros o Ho. destruct (Hcl o Ho) as (Hext & _). unfold extc in Hext. lia.
+      - intros o Ho h c Hl. destruct (Hcl o Ho) as (Hext & Hfld & Hcln).
+        apply (hloc_hsim m m2 _ _ _ ap_heaps R1 R2) in Hl.
+        unfold extc, ext_refs in Hext.
+        destruct Hl as [i t' Hs | t' Hbg | p xp j t' Hp Hj | p xp t' Hp Hc'].
+        + exfalso. assert (0 < cnt_opt t' (slots m))%nat by (apply cnt_opt_pos; eauto). lia.
+        + exfalso. apply cnt_id_pos in Hbg. lia.
+        + exists p. split; [reflexivity|]. apply (Hfld p xp j Hp Hj).
+        + exfalso. apply (Hcln p xp Hp Hc').
     Qed.
   End One.
 End AfterPass.
